@@ -508,7 +508,7 @@ def run(ctx):
         ctx.count("corpus")
         ctx.case({"files": [f["text"] for f in c["files"]]}, nontrivial=True)
         check_library(ctx, c, drv)
-    n = 45 if quick else 700
+    n = 45 if quick else 1500
     for i in range(n):
         if ctx.time_left() < 0:
             ctx.notes.append("stopped by time budget after %d libraries" % i)
@@ -547,12 +547,14 @@ MANIFEST = dict(
     level_text="Lean 4 theorems about an executable model of file_to_tree / Tree.extend / Class._extend and the merge loops of "
                "api._compile_model and compiler.parse_all (payload at every class path after a merge; dictionary invariant kept; "
                "order independence up to sibling order for any number of files and any depth when each class path's payload is "
-               "defined at most once; the as-is code characterised as 'first file wins'), tied to the real code by a per-run "
-               "differential correspondence of every file tree and every merged tree (all permutations, three directory walks), "
+               "defined at most once; name lookup independent of sibling order; the code before commit 07f5409 characterised as "
+               "'first file wins'), tied to the real code by a per-run differential correspondence of every file tree, every "
+               "merged tree (all permutations, three directory walks) and name lookups, "
                "plus a direct oracle: flattened models of every class, every permutation, against the unsplit library.",
     level_note="Trusted: Lean kernel + standard axioms; the harness (library generator, digest of a class's own content as its "
-               "payload, canonical JSON of flat models). That flattening only looks classes up by name is assumed in "
-               "`flatten_order_independent` and exercised by the direct oracle on every case.",
+               "payload, canonical JSON of flat models). That flattening only looks classes up by name is a hypothesis of "
+               "`flatten_order_independent`; the direct oracle exercises it on every case and found where it fails (open finding "
+               "C27-F2: flattening a package that encloses a model which does not flatten on its own).",
     technique="Lean 4 proof (structural induction over forests, paths and file lists) + model/implementation correspondence + direct oracle",
 )
 READY = True
